@@ -494,3 +494,56 @@ package builtInFunctions
 //@   ensures[C04] err == nil && !readFailed && !vmInput.ReturnCallAfterError && !senderSide && rcv != ESDTSC() ==> !frozen(old(St), rcv, Knft(tok, dMNonce(a3))) && !paused(old(St), Kesdt(tok)) && !paused(old(St), Knft(tok, dMNonce(a3)))
 //@   ensures[C15] err == nil ==> WFvalues(St)
 //@   modifies St, failed, readFailed, loadFailed
+
+// ---- MultiESDTNFTTransfer ---------------------------------------------------------------------------------------------------------------
+// Per-item contracts (one listed token): addNFTToDestination credits, transferOneTokenOnSenderShard
+// debits and (same shard) credits. The entry points iterate over the listed items calling exactly
+// these; their loops carry safety, gas, footprint and well-formedness invariants.
+
+//@ func (e *esdtNFTMultiTransfer) addNFTToDestination
+//@   view mn = ite(esdtDataToTransfer.TokenMetaData == nil, 0, esdtDataToTransfer.TokenMetaData.Nonce)
+//@   view Kd = seq(esdtTokenKey) + be(ite(esdtDataToTransfer.TokenMetaData == nil, 0, esdtDataToTransfer.TokenMetaData.Nonce))
+//@   view dstA = seq(dstAddress)
+//@   view v0 = bigval(esdtDataToTransfer.Value)
+//@   requires e != nil && !isNil(e.marshalizer) && !isNil(e.pauseHandler) && !isNil(e.payableHandler)
+//@   requires !isNil(userAccount) && addr(userAccount) == seq(dstAddress) && esdtDataToTransfer != nil && esdtDataToTransfer.Value != nil && bigval(esdtDataToTransfer.Value) > 0
+//@   requires WFvalues(St) && isTokKey(seq(esdtTokenKey))
+//@   ensures[C17] err == nil ==> failed == old(failed)
+//@   ensures old(readFailed) ==> readFailed
+//@   ensures[C09] err == nil && mustVerifyPayable ==> payable(dstA)
+//@   ensures[C01,C02] err == nil && !readFailed ==> val(St, dstA, Kd) == val(old(St), dstA, Kd) + v0
+//@   ensures[C01,C02,C05] onlyChanged(St, old(St), dstA, Kd)
+//@   ensures[C04] err == nil && !readFailed && !isReturnCallWithError && dstA != ESDTSC() ==> !frozen(old(St), dstA, Kd) && !paused(old(St), seq(esdtTokenKey)) && !paused(old(St), Kd)
+//@   ensures[C03] err == nil && !readFailed && !isReturnCallWithError && dstA != ESDTSC() && !frozenProps(seq(esdtDataToTransfer.Properties)) ==> frozen(St, dstA, Kd) == frozen(old(St), dstA, Kd)
+//@   ensures[C03,kf:F12] err == nil && !readFailed && (isReturnCallWithError || dstA == ESDTSC()) ==> frozen(St, dstA, Kd) == frozen(old(St), dstA, Kd)
+//@   ensures[C08] err == nil && !readFailed && len(old(St)[dstA][Kd]) != 0 && dHasMeta(old(St)[dstA][Kd]) ==> esdtDataToTransfer.TokenMetaData != nil && dMHash(old(St)[dstA][Kd]) == seq(esdtDataToTransfer.TokenMetaData.Hash)
+//@   ensures[C08] err == nil ==> St[dstA][Kd] == tokEnc(esdtDataToTransfer) && esdtDataToTransfer.TokenMetaData == old(esdtDataToTransfer.TokenMetaData)
+//@   ensures[C15] err == nil ==> WFvalues(St)
+//@   modifies St, failed, readFailed, loadFailed, bigval(esdtDataToTransfer.Value)
+
+//@ func (e *esdtNFTMultiTransfer) transferOneTokenOnSenderShard
+//@   results r, err
+//@   view tok = seq(tokenID)
+//@   view snd = addr(acntSnd)
+//@   view dstA = seq(dstAddress)
+//@   view q = bigval(quantityToTransfer)
+//@   view Ks = Knft(seq(tokenID), nonce)
+//@   view old0 = St[addr(acntSnd)][Knft(seq(tokenID), nonce)]
+//@   requires e != nil && !isNil(e.marshalizer) && !isNil(e.pauseHandler) && !isNil(e.payableHandler) && esdtPrefix(e.keyPrefix)
+//@   requires !isNil(acntSnd) && quantityToTransfer != nil && (!isNil(acntDst) ==> addr(acntDst) == seq(dstAddress)) && addr(acntSnd) != seq(dstAddress)
+//@   requires WFvalues(St)
+//@   ensures[C17] err == nil ==> failed == old(failed)
+//@   ensures old(readFailed) ==> readFailed
+//@   ensures err == nil ==> r != nil && r.Value != nil && fresh(r) && (nonce != 0 ==> r.TokenMetaData != nil)
+//@   ensures[C01] err == nil && isNil(acntDst) ==> bigval(r.Value) == q
+//@   ensures[C09] err == nil && !isNil(acntDst) && verifyPayable ==> payable(dstA)
+//@   ensures[C01,C02] err == nil && !readFailed ==> q > 0 && len(old0) != 0 && val(old(St), snd, Ks) >= q
+//@   ensures[C01,C02] err == nil && !readFailed && ite(dHasMeta(old0), dMNonce(old0), 0) == nonce ==> val(St, snd, Ks) == val(old(St), snd, Ks) - q && (!isNil(acntDst) ==> val(St, dstA, Ks) == val(old(St), dstA, Ks) + q) && onlyChanged2(St, old(St), snd, Ks, dstA, Ks) && (isNil(acntDst) ==> onlyChanged(St, old(St), snd, Ks))
+//@   ensures[C01,C02,kf:F8b] err == nil && !readFailed && ite(dHasMeta(old0), dMNonce(old0), 0) != nonce ==> val(St, snd, Ks) == val(old(St), snd, Ks) - q
+//@   ensures[C05] forall(a, addr, k, bseq, St[a][k] != old(St)[a][k] ==> (a == snd || a == dstA) && isTokKey(k) && k[0:len(tok) + 10] == Kesdt(tok))
+//@   ensures[C04] err == nil && !readFailed && !isReturnCallWithError && snd != ESDTSC() ==> !frozen(old(St), snd, Ks) && !paused(old(St), Kesdt(tok))
+//@   ensures[C04] err == nil && !readFailed && !isReturnCallWithError && !isNil(acntDst) && dstA != ESDTSC() && snd != SYS() ==> !frozen(old(St), dstA, Knft(tok, ite(dHasMeta(old0), dMNonce(old0), 0))) && !paused(old(St), Kesdt(tok))
+//@   ensures[C08] err == nil && !readFailed && !isNil(acntDst) && ite(dHasMeta(old0), dMNonce(old0), 0) == nonce && nonce != 0 ==> sameMeta(St[dstA][Ks], old0)
+//@   ensures[C08] err == nil && isNil(acntDst) && nonce != 0 ==> sameMeta(tokEnc(r), old0)
+//@   ensures[C15] err == nil ==> WFvalues(St)
+//@   modifies St, failed, readFailed, loadFailed, new(data_esdt.ESDigitalToken), new(data_esdt.MetaData), new(big.Int), new([][]byte)
